@@ -17,6 +17,7 @@ import Pamiq.Model.TrainerDriver
 import Pamiq.Model.GymDriver
 import Pamiq.Model.QueueDriver
 import Pamiq.Model.TorchSyncDriver
+import Pamiq.Model.PersistDriver
 open Pamiq
 
 structure DState where
@@ -43,6 +44,8 @@ structure DState where
   queue : Queue.DSt := {}
   -- C19 (TorchSync)
   torchsync : TorchSync.DSt := none
+  -- C05/C10 (Persist)
+  persist : Persist.DSt := {}
 
 def handle (st : DState) (line : String) : DState × String :=
   match (line.trimAscii.toString.splitOn " ").filter (· ≠ "") with
@@ -99,6 +102,10 @@ def handle (st : DState) (line : String) : DState × String :=
   | "torchsync" :: rest =>
     let (t, out) := TorchSync.drive st.torchsync rest
     ({ st with torchsync := t }, out)
+  -- C05/C10 (Persist)
+  | "persist" :: rest =>
+    let (p, out) := Persist.drive st.persist rest
+    ({ st with persist := p }, out)
   | _ => (st, "bad-op")
 
 partial def loop (h : IO.FS.Stream) (out : IO.FS.Stream) (st : DState) : IO Unit := do
